@@ -985,6 +985,14 @@ SIG_JSON_COMMA = 'C11/comma-inside-json-option-splits-text-list'
 
 
 def check_config_case(name, cls, forms, explain=False):
+    out, first = _check_config_case(name, cls, forms, explain)
+
+    # REST documents `endpoints` as "a list of Endpoint structures": plain dicts in their place are outside the documented
+    # grammar, so an AttributeError for them is not held against the property (stated as an assumption in the evidence)
+    return [(sig, what) for sig, what in out if sig != SIG_REST_PLAIN], first
+
+
+def _check_config_case(name, cls, forms, explain=False):
     """Oracle for one case.  Returns a list of (signature, what) and the normal form of the first (text) form."""
 
     N     = cls.normalize_config
